@@ -154,16 +154,7 @@ theorem tags_fill3 (S : SchemaView) :
           (treeTagNames child ++ countTagNames fds ++
             ((tagPairs rest).map (·.1) ++ fieldsTagNames rest)) :=
         (c2.append (List.Perm.refl _)).append r2
-      refine h1.trans ?_
-      have h2 : (treeTagNames child ++ countTagNames fds ++
-          ((tagPairs rest).map (·.1) ++ fieldsTagNames rest)).Perm
-          ((tagPairs rest).map (·.1) ++ ((treeTagNames child ++ countTagNames fds) ++
-            fieldsTagNames rest)) := (perm_move_front _ _ _).symm.trans (by
-              rw [List.append_assoc]
-              exact List.Perm.refl _) |>.symm |>.symm
-      refine h2.trans (List.Perm.append_left _ ?_)
-      rw [List.append_assoc, List.append_assoc]
-      rw [← List.append_assoc, ← List.append_assoc]
+      refine h1.trans ((perm_move_front _ _ _).trans (List.Perm.append_left _ ?_))
       exact List.Perm.append_right _ List.perm_append_comm
     · intro e he
       simp only [List.mem_append] at he
@@ -209,8 +200,7 @@ theorem tags_fill3 (S : SchemaView) :
     refine ⟨newC ++ newR, by rw [r1, c1, List.append_assoc], ?_, ?_⟩
     · rw [List.map_append, hftn]
       simp only [tagPairs]
-      exact (c2.append r2).trans (perm_move_front _ _ _).symm.symm |>.trans (by
-        exact (perm_move_front _ _ _))
+      exact (c2.append r2).trans (perm_move_front _ _ _)
     · intro e he
       rcases List.mem_append.1 he with h | h
       · exact Or.inr ((c3 e h).mono
